@@ -36,6 +36,8 @@ structure Cfg where
   eventBuffer : Nat
   queryBuffer : Nat
   encryption : Bool := true
+  /-- dimensionality of the node's own network coordinate -/
+  dimensionality : Nat := 8
 
 structure Query where
   ltime : Nat
@@ -71,6 +73,13 @@ structure Dec where
   /-- tag filter: decoded, and whether the regexp compiles and matches -/
   filterTag : List Nat → Option Bool
   keyRequest : List Nat → Option (List Nat)
+  /-- probe-ack payload: the decoded coordinate's number of dimensions -/
+  coordinate : List Nat → Option Nat := fun _ => none
+  /-- name-conflict reply (a Member) and key reply (a nodeKeyResponse) -/
+  member : List Nat → Option Unit := fun _ => none
+  keyResponse : List Nat → Option Unit := fun _ => none
+  /-- tags blob behind the magic byte -/
+  tags : List Nat → Option Unit := fun _ => none
 
 def rejectAll : Dec :=
   { leave := fun _ => none, join := fun _ => none, userEvent := fun _ => none, query := fun _ => none,
@@ -297,13 +306,73 @@ def mergeRemoteState (d : Dec) (st : State) (buf : List Nat) : State × Outcome 
           | none => (st, .ignored "push/pull does not decode")
           | some pp => mergeEvents st pp.events
 
-inductive Input where
-  | msg (buf : List Nat) (sc : Sched := {})
-  | merge (buf : List Nat)
+/-- serf/ping_delegate.go NotifyPingComplete: version byte, coordinate behind it; Client.Update rejects a
+coordinate of another dimensionality before any distance is computed. -/
+def pingComplete (cfg : Cfg) (d : Dec) (payload : List Nat) : Outcome :=
+  if payload.length = 0 then .ignored "empty"
+  else match payload[0]? with
+    | none => .panic "site_pingDelegate_NotifyPingComplete_index_payload_0"
+    | some v =>
+      if v ≠ 1 then .ignored "unsupported ping version"
+      else match slice1 "site_pingDelegate_NotifyPingComplete_slice_payload_1" payload with
+        | .panic s => .panic s
+        | .val body => match d.coordinate body with
+          | none => .ignored "coordinate does not decode"
+          | some n => if n ≠ cfg.dimensionality then .ignored "rejected: dimensions are not compatible" else .ok false
 
-def handle (_cfg : Cfg) (d : Dec) (st : State) : Input → State × Outcome
+/-- serf/serf.go decodeTags (member metadata): `if len(buf) == 0 || buf[0] != tagMagicByte { role } else decode buf[1:]` -/
+def decodeTags (d : Dec) (buf : List Nat) : Outcome :=
+  if buf.length = 0 then .ok false
+  else match buf[0]? with
+    | none => .panic "site_Serf_decodeTags_index_buf_0"
+    | some b =>
+      if b ≠ 255 then .ok false
+      else match slice1 "site_Serf_decodeTags_slice_buf_1" buf with
+        | .panic s => .panic s
+        | .val body => match d.tags body with
+          | none => .ignored "tags do not decode (logged; whatever was decoded is kept)"
+          | some _ => .ok false
+
+/-- a reply read by resolveNodeConflict (typ = 6, site prefix Serf_resolveNodeConflict) or by
+KeyManager.streamKeyResp (typ = 8): `if len(p) < 1 || p[0] != typ { invalid } else decode p[1:]` -/
+def typedReply (siteIdx siteSlice : String) (typ : Nat) (dec : List Nat → Option Unit) (p : List Nat) : Outcome :=
+  if p.length < 1 then .ignored "invalid reply type"
+  else match p[0]? with
+    | none => .panic siteIdx
+    | some t =>
+      if t ≠ typ then .ignored "invalid reply type"
+      else match slice1 siteSlice p with
+        | .panic s => .panic s
+        | .val body => match dec body with
+          | none => .ignored "reply does not decode"
+          | some _ => .ok false
+
+def conflictReply (d : Dec) (p : List Nat) : Outcome :=
+  typedReply "site_Serf_resolveNodeConflict_index_r_Payload_0" "site_Serf_resolveNodeConflict_slice_r_Payload_1" 6 d.member p
+
+def keyReply (d : Dec) (p : List Nat) : Outcome :=
+  typedReply "site_KeyManager_streamKeyResp_index_r_Payload_0" "site_KeyManager_streamKeyResp_slice_r_Payload_1" 8 d.keyResponse p
+
+inductive Input where
+  /-- a gossip message handed to NotifyMsg -/
+  | msg (buf : List Nat) (sc : Sched := {})
+  /-- a state-sync payload handed to MergeRemoteState -/
+  | merge (buf : List Nat)
+  /-- a probe-ack payload handed to NotifyPingComplete -/
+  | ping (payload : List Nat)
+  /-- member metadata handed to NotifyJoin / NotifyUpdate / NotifyMerge / NotifyAlive -/
+  | metadata (buf : List Nat)
+  /-- the payload of a reply routed to the name-conflict vote / to a key command -/
+  | conflictReply (payload : List Nat)
+  | keyReply (payload : List Nat)
+
+def handle (cfg : Cfg) (d : Dec) (st : State) : Input → State × Outcome
   | .msg b sc => notifyMsg d st b sc
   | .merge b => mergeRemoteState d st b
+  | .ping p => (st, pingComplete cfg d p)
+  | .metadata b => (st, decodeTags d b)
+  | .conflictReply p => (st, conflictReply d p)
+  | .keyReply p => (st, keyReply d p)
 
 /-- a whole history of inputs; stops at the first panic -/
 def run (cfg : Cfg) (d : Dec) : State → List Input → State × Outcome
@@ -314,13 +383,17 @@ def run (cfg : Cfg) (d : Dec) : State → List Input → State × Outcome
     | (st', _) => run cfg d st' rest
 
 /-- the functions of the source this skeleton follows (names as in `Gen.PanicSites.sitesByFunction`) -/
-def modelledFunctions : List String :=
-  ["delegate_NotifyMsg", "delegate_MergeRemoteState", "Serf_handleUserEvent", "Serf_handleQuery", "Serf_shouldProcessQuery",
-   "serfQueries_handleQuery", "serfQueries_handleInstallKey", "serfQueries_handleUseKey", "serfQueries_handleRemoveKey",
-   "QueryResponse_sendAck", "QueryResponse_sendResponse"]
+def allKinds : List String := ["index", "slice", "div", "mapwrite", "send"]
 
-/-- the kinds of site the skeleton represents as checked operations -/
-def modelledKinds : List String := ["index", "slice", "div", "mapwrite", "send"]
+/-- function ↦ the kinds of its sites the skeleton represents as checked operations -/
+def modelled : List (String × List String) :=
+  [("delegate_NotifyMsg", allKinds), ("delegate_MergeRemoteState", allKinds), ("Serf_handleUserEvent", allKinds),
+   ("Serf_handleQuery", allKinds), ("Serf_shouldProcessQuery", allKinds), ("serfQueries_handleQuery", allKinds),
+   ("serfQueries_handleInstallKey", allKinds), ("serfQueries_handleUseKey", allKinds), ("serfQueries_handleRemoveKey", allKinds),
+   ("QueryResponse_sendAck", allKinds), ("QueryResponse_sendResponse", allKinds),
+   -- of these only the byte-level operations are modelled (their map writes and contract calls are site theorems only)
+   ("pingDelegate_NotifyPingComplete", ["index", "slice"]), ("Serf_decodeTags", ["index", "slice"]),
+   ("Serf_resolveNodeConflict", ["index", "slice"]), ("KeyManager_streamKeyResp", ["index", "slice"])]
 
 /-- every `.panic` site name that occurs in the skeleton -/
 def coveredSites : List String :=
@@ -338,7 +411,11 @@ def coveredSites : List String :=
    "site_serfQueries_handleInstallKey_slice_q_Payload_1", "site_serfQueries_handleUseKey_slice_q_Payload_1",
    "site_serfQueries_handleRemoveKey_slice_q_Payload_1",
    "site_QueryResponse_sendAck_send_r_ackCh", "site_QueryResponse_sendAck_mapwrite_r_acks",
-   "site_QueryResponse_sendResponse_send_r_respCh", "site_QueryResponse_sendResponse_mapwrite_r_responses"]
+   "site_QueryResponse_sendResponse_send_r_respCh", "site_QueryResponse_sendResponse_mapwrite_r_responses",
+   "site_pingDelegate_NotifyPingComplete_index_payload_0", "site_pingDelegate_NotifyPingComplete_slice_payload_1",
+   "site_Serf_decodeTags_index_buf_0", "site_Serf_decodeTags_slice_buf_1",
+   "site_Serf_resolveNodeConflict_index_r_Payload_0", "site_Serf_resolveNodeConflict_slice_r_Payload_1",
+   "site_KeyManager_streamKeyResp_index_r_Payload_0", "site_KeyManager_streamKeyResp_slice_r_Payload_1"]
 
 /-- sites of the modelled functions that are trivially safe in the source and have no checked counterpart here
 (a map made two lines earlier; sends on channels the library never closes) -/
